@@ -29,7 +29,7 @@ type Case struct {
 	IDs      []string     `json:"ids"`
 	Policies []*ir.Policy `json:"policies"`
 	World    gen.World    `json:"world"`
-	Loader   string       `json:"loader"`           // document | add | iterator | iterator-dup | nil-entities
+	Loader   string       `json:"loader"`           // document | stream | add | json | replace | iterator | iterator-dup | nil-entities
 	World2   *gen.World   `json:"world2,omitempty"` // optional second store + request for a second call on the same policies
 	Order    []int        `json:"order,omitempty"`
 	Seps     []string     `json:"seps,omitempty"` // document loader: text before each policy
@@ -53,6 +53,16 @@ func (s sliceIter) All() iter.Seq2[cedar.PolicyID, *cedar.Policy] {
 type pos struct {
 	File           string
 	Off, Line, Col int
+}
+
+// decoyPolicy: what an id holds before it is replaced by the policy under test (loader "replace").
+func decoyPolicy(k int) *ir.Policy {
+	if k%2 == 0 {
+		return ir.NewPolicy(false) // forbid(principal, action, resource);
+	}
+	p := ir.NewPolicy(true)
+	p.Conds = []ir.Cond{{When: true, Body: ir.Bin(ir.OpAdd, ir.Lit(ir.Long(1)), ir.Lit(ir.Str("a")))}}
+	return p
 }
 
 func check(c *Case) (string, string) {
@@ -115,7 +125,7 @@ func check(c *Case) (string, string) {
 			return "document/parse", fmt.Sprintf("generated document does not parse: %v\n%s", err, text)
 		}
 		iterable = ps
-	case "add", "nil-entities", "json":
+	case "add", "nil-entities", "json", "replace":
 		ps := cedar.NewPolicySet()
 		order := c.Order
 		if len(order) != n {
@@ -123,6 +133,24 @@ func check(c *Case) (string, string) {
 			for i := range order {
 				order[i] = i
 			}
+		}
+		if c.Loader == "replace" {
+			// every id first holds a decoy (a forbid of everything / a permit that always fails), and an extra id comes and
+			// goes: only the current contents may count
+			for k, i := range order {
+				ps.Add(cedar.PolicyID(ids[i]), conv.ToPolicy(decoyPolicy(k)))
+			}
+			ps.Add("zz-extra", conv.ToPolicy(decoyPolicy(0)))
+			for _, i := range order {
+				if ps.Add(cedar.PolicyID(ids[i]), conv.ToPolicy(c.Policies[i])) {
+					return "add/return", fmt.Sprintf("Add(%q) reported a new policy although the id was present", ids[i])
+				}
+			}
+			if !ps.Remove("zz-extra") {
+				return "remove/return", "Remove of a present id reported false"
+			}
+			iterable = ps
+			break
 		}
 		for _, i := range order {
 			if !ps.Add(cedar.PolicyID(ids[i]), conv.ToPolicy(c.Policies[i])) {
@@ -467,7 +495,7 @@ func TestDecisionTable(t *testing.T) {
 		if len(sel) == 0 {
 			cell = append(cell, "cell:empty-set")
 		}
-		for _, loader := range []string{"document", "stream", "add", "json", "iterator", "iterator-dup"} {
+		for _, loader := range []string{"document", "stream", "add", "json", "iterator", "iterator-dup", "replace"} {
 			cc := c
 			cc.Loader = loader
 			if loader == "add" {
@@ -486,7 +514,7 @@ func TestDecisionTable(t *testing.T) {
 		}
 	})
 	if ev.First() {
-		ev.R.Space(fmt.Sprintf("multisets of <= %d of the 14 policy kinds (effect x outcome) x 6 loaders", maxSize), total*6)
+		ev.R.Space(fmt.Sprintf("multisets of <= %d of the 14 policy kinds (effect x outcome) x 7 loaders", maxSize), total*7)
 	}
 }
 
@@ -535,7 +563,7 @@ func genCase(rt *rapid.T) *Case {
 		}
 		c.World2 = &w2
 	}
-	c.Loader = rapid.SampledFrom([]string{"document", "stream", "add", "json", "iterator", "iterator-dup", "nil-entities"}).Draw(rt, "loader")
+	c.Loader = rapid.SampledFrom([]string{"document", "stream", "add", "json", "iterator", "iterator-dup", "nil-entities", "replace"}).Draw(rt, "loader")
 	if c.Loader == "add" || c.Loader == "nil-entities" {
 		idx := make([]int, n)
 		for i := range idx {
